@@ -185,6 +185,10 @@ pub fn gen_schema_record(rng: &mut Rng, id: u32) -> Val {
     if rng.chance(1, 4) {
         m.push(("t".into(), Val::Bool(rng.chance(1, 2))));
     }
+    if rng.chance(1, 6) {
+        // JSON as data: a value, a value with something behind it, two values
+        m.push(("txt".into(), Val::Str((*rng.pick(&["[1, 2] [3]", "[1, 2]", "1 2", "{\"a\":1} x", "{\"a\":1}", "7", "[1"])).to_string())));
+    }
     if rng.chance(1, 5) {
         // a small program as data (texts that share their beginning)
         m.push(("sel".into(), Val::Str((*rng.pick(&["(>= .id 10)", "(>= .id 1)", "(= .g \"a\")", "(= .g \"b\")", ".n", "(+ .id 1)", "(size .arr)", "(= .id 2)", "(= .id 0)", "(>= .n 0)"])).to_string())));
@@ -571,7 +575,7 @@ pub const SELECT_EXPRS: &[&str] = &[
     "(set \"k\" .g (get .obj :k))",
     // programs and keys that come from the data: whatever a function remembers about the
     // text or the key of one record meets another text, another key, in the next one
-    "(parse_selection .sel)", "(parse_selection (concat \"(>= .id \" (stringify (% .id 3)) \")\"))",
+    "(parse .txt)", "(parse_selection .sel)", "(parse_selection (concat \"(>= .id \" (stringify (% .id 3)) \")\"))",
     "(group_by .arr .)", "(group_by (values .obj) .)", "(sort_by .arr (size .))", "(group_by .arr (? (string? .) . 1))",
     // references to the parent input where a stage or a function has derived the context
     "^.", "^.id", "^^.g", "(set \"v\" 1 ^.)", "(map . (set \"v\" 1 ^.))", "(define \"q\" ^.id @q)",
@@ -805,7 +809,12 @@ pub fn gen_pipe(rng: &mut Rng, wish: &PipeWish) -> Pipe {
             class = class.max(Class::Streaming);
         }
         if rng.chance(1, 5) {
-            opts.push(vec![format!("--take={}", rng.below(6))]);
+            // (one limit in twenty-five is the "no limit" idiom: a number no input reaches)
+            if rng.chance(1, 25) {
+                opts.push(vec![format!("--take={}", rng.pick(&[u64::MAX, 1u64 << 62, 1u64 << 50, u64::MAX - 3]))]);
+            } else {
+                opts.push(vec![format!("--take={}", rng.below(6))]);
+            }
             class = class.max(Class::Streaming);
         }
         if wish.allow_only_objects && rng.chance(1, 8) {
